@@ -166,16 +166,49 @@ OBSERVERS = [
 ]  # fmt: skip
 
 
-def observe(fl, engine, rnd, ctx=None, held=None, k=None, only=None):
-    """read-only-looking calls made between two steps; none of them may change what a later step computes, and what they
-    return is kept (held) so that a later step that rewrites it is noticed.  Exceptions out of an observer are the
-    observer's own business (an engine that cannot be printed is not this workload's subject) and are ignored."""
+def engine_state(engine):
+    """what an engine holds that a later step reads: values and previous values, fuzzy outputs, what the rules carry"""
+    def arr(x):
+        return np.array(x, dtype=float, copy=True) if np.ndim(x) or isinstance(x, (float, int, np.floating, np.ndarray)) else x
+
+    state = {}
+    for v in engine.input_variables:
+        state[f"value of {v.name}"] = arr(v.value)
+    for ov in engine.output_variables:
+        state[f"value of {ov.name}"] = arr(ov.value)
+        state[f"previous value of {ov.name}"] = arr(ov.previous_value)
+        state[f"fuzzy output of {ov.name}"] = [(id(a.term), arr(a.degree), id(a.implication)) for a in ov.fuzzy.terms]
+        state[f"settings of {ov.name}"] = (ov.enabled, ov.lock_range, ov.lock_previous, arr(ov.default_value), arr(ov.minimum), arr(ov.maximum), id(ov.defuzzifier), id(ov.aggregation))
+    for bi, rb in enumerate(engine.rule_blocks):
+        for ri, r in enumerate(rb.rules):
+            state[f"rule {bi}.{ri}"] = (r.text, r.enabled, bool(r.is_loaded()), arr(r.weight), arr(r.activation_degree), arr(r.triggered))
+    return state
+
+
+def state_difference(before, after):
+    for k in before:
+        if k not in after or not _same(before[k], after[k]):
+            return k
+    return next((k for k in after if k not in before), None)
+
+
+def observe(fl, engine, rnd, ctx=None, held=None, k=None, only=None, check=True):
+    """read-only-looking calls made between two steps; none of them may change what the engine holds (checked: the state
+    before and after each call is compared) nor what a later step computes, and what they return is kept (held) so that a
+    later step that rewrites it is noticed.  Exceptions out of an observer are the observer's own business (an engine that
+    cannot be printed is not this workload's subject) and are ignored."""
     names = only or rnd.sample(OBSERVERS, k if k is not None else rnd.randint(1, 4))
     for name in names:
         try:
+            before = engine_state(engine) if (check and ctx is not None) else None
             _observe(fl, engine, rnd, name, held)
             if ctx is not None:
                 ctx.hit("event:observer between steps", f"observer:{name}")
+            if before is not None:
+                what = state_difference(before, engine_state(engine))
+                ctx.evaluated()
+                if what is not None:
+                    ctx.violation(f"a read-only call ({name}) changes what the engine holds", {"call": name, "changed": what, "engine": str(engine)[:2000]}, before.get(what), engine_state(engine).get(what))
         except Exception as ex:  # noqa: BLE001
             if ctx is not None:
                 ctx.hit(f"observer raised:{name}:{type(ex).__name__}")
